@@ -1046,8 +1046,23 @@ func (se *SpecEnv) callSpec(c *ast.CallExpr) Value {
 			}
 		}
 		rd := func(x Value) Value {
-			if pv, ok := x.(*PtrV); ok && pv.Obj != nil && len(pv.Path) > 0 {
+			if pv, ok := x.(*PtrV); ok && pv.Obj != nil {
 				if c := se.fr.v.content0(se.state(), pv.Obj); c != nil {
+					if len(pv.Path) == 0 {
+						if pv.Obj.Entry {
+							return x // a pointer the caller handed in: identity of the pointer itself
+						}
+						// a local variable that lives in memory (captured by a closure): the slice or pointer it holds
+						switch inner := c.(type) {
+						case *SliceV:
+							return inner
+						case *PtrV:
+							if _, isPtr := pv.Obj.Type.Underlying().(*types.Pointer); isPtr {
+								return inner
+							}
+						}
+						return x
+					}
 					switch inner := se.fr.v.getPath(c, pv.Path).(type) {
 					case *PtrV:
 						return inner
